@@ -87,6 +87,12 @@ def _worker_init2(check_name, tier):
 
     warnings.simplefilter("ignore")
     sys.setrecursionlimit(10000)
+    try:
+        from rdkit import RDLogger
+
+        RDLogger.DisableLog("rdApp.*")
+    except Exception:
+        pass
     mod = importlib.import_module(f"checks.{check_name}")
     _W["mod"] = mod
     _W["tier"] = tier
